@@ -204,6 +204,35 @@ class C07(Prop):
     assumptions = ["library = lua51 extended with deprecated globals and a deprecated parameter"]
 
 
+class C04(Prop):
+    id = "C04"
+    coq_targets = ["Properties/C04.vo", "Corr/C04.vo"]
+    props_file = "Properties/C04.v"
+    harness_cmd = "c04"
+    n = {"quick": 1500, "thorough": 30000}
+    search_seeds = 3
+    search_n = 3000
+    classes = {"L2": 1}
+    bits = {4: "a modelled lint reported code on which its documented condition, literals judged by value, is false",
+            8: "a modelled lint did not report its canonical pattern in some enclosing context",
+            16: "an unmodelled lint's verdict on a positive / negative template differs from the documented one"}
+    rule = ("(1) divide_by_zero / compare_nan / suspicious_reverse_loop / empty_if / empty_loop / unbalanced_assignments: documented "
+            "patterns and near misses with zeros and loop ends in every spelling (decimal, float, exponent, hex, leading zeros) and "
+            "operands from a small expression grammar, each embedded in one of 8 enclosing contexts, optionally after a generated "
+            "program; whole tree dumped, diagnostics counted per code; (2) mismatched_arg_count: 7 parameter lists x 0-4 arguments of 8 "
+            "kinds (calls and `...` in every position) + string/table call sugar; (3) 44 positive/negative templates of the 10 lints "
+            "that are not modelled, in the same contexts; non-trivial = all; distinct = distinct sources")
+    trusted_base = [
+        "modelled: the seven lints named above over the dumped syntax tree (Lints/Closed.v); nodes_* enumerates what full_moon's "
+        "Visitor reaches; diagnostics are compared by count per code, not by range",
+        "the other ten lints of the property (duplicate_keys, mixed_table, if_same_then_else, ifs_same_cond, parenthese_conditions, "
+        "almost_swapped, constant_table_comparison, type_check_inside_call, bad_string_escape, multiple_statements) are tested "
+        "against template verdicts only: no theorem covers them",
+        "f32 rounding is not modelled: loop ends within 2^-24 of 1 are not generated",
+    ]
+    assumptions = ["empty_if / empty_loop run with comments_count = false (the default)"]
+
+
 class C05(Prop):
     id = "C05"
     coq_targets = ["Properties/C05.vo", "Corr/C05.vo"]
@@ -291,4 +320,4 @@ from .c20 import C20  # noqa: E402
 from .c12 import C12  # noqa: E402
 from .c11 import C11  # noqa: E402
 
-ALL = {c.id: c for c in [C01, C02, C03, C05, C06, C07, C08, C09, C10, C11, C12, C13, C14, C15, C16, C17, C18, C19, C20]}
+ALL = {c.id: c for c in [C01, C02, C03, C04, C05, C06, C07, C08, C09, C10, C11, C12, C13, C14, C15, C16, C17, C18, C19, C20]}
